@@ -114,7 +114,7 @@ CHECKS = {
             "Safety (only valid matching pairs, last good pair kept) and convergence are decided for every update history in the bound in all three supported styles; the real watcher "
             "must serve exactly the version the specification predicts after each step of hundreds of histories - which also validates the kernel event model instead of trusting it.",
             "Quiescence is detected through the event hooks (verdict only after a solitary re-run); the torn read inside tls.LoadX509KeyPair is decided in the model only."),
-    'C12': ("Flow.tla (internal model of flow.go/server.go: inflow avail/unsent with batching, outflow with SETTINGS deltas and overflow checks) checked exhaustively per direction; "
+    'C12': ("Flow.tla (internal model of flow.go/server.go: inflow avail/unsent with batching, outflow with SETTINGS deltas and overflow checks) checked exhaustively per direction by TLC and, for arbitrary window sizes / batching threshold / increments / SETTINGS values / frame sizes, as an inductive invariant by Apalache (FlowIndRecv.tla, FlowIndSend.tla; thorough tier also requires four broken models to be rejected); "
             "client-side wire traces of the real server under seeded random window schedules validated by TLC against FlowLedger.tla (the peer's ledger)",
             "TLC decides send safety incl. negative windows, overflow errors, the conservation law, the batching bound and agreement with the peer's ledger on the model; on the code "
             "every DATA frame of every recorded connection must fit the ledger, queued data must drain, provoked overflows/overruns must draw FLOW_CONTROL_ERROR and honest peers none, "
